@@ -99,6 +99,7 @@ def run(ctx):
         for c in cfgs:
             cases.append(dict(exe=ex_list[c], script=sc, replay_args=['ordered', 'small'], tag=('list', sc.split('\n')[0], c)))
     res = runner.run_cases(cases, rexe)
+    exec_cov = poolrun.exec_lockstep(ctx, res, rexe)
     ops = arrays = grows = 0; div = 0; per = {}
     for r in res:
         kind, tgt, c = r['case']['tag']; per[kind] = per.get(kind, 0) + 1
@@ -117,7 +118,7 @@ def run(ctx):
     ctx.tie_broken = ctx.tie_broken[:6]
     ctx.cov.update(dict(
         tie=dict(kind='Spec acceptance: every result must be a run of free nodes of a range handed to the list (insert hook), capacity_left / pool_capacity_left / next_capacity compared with the model after every operation, growth only when the list is empty; the real free_memory_list, ordered_free_memory_list and small_free_memory_list driven directly in lock-step with UnorderedList / OrderedList / SmallList (every node in link order, cursors, which run an array request takes, chunk order and free chains)',
-                 configs=cfgs, histories_by_kind=per, histories=len(cases), operations=ops, array_requests=arrays, growths=grows, divergences=div),
+                 configs=cfgs, histories_by_kind=per, histories=len(cases), operations=ops, exec_pool=exec_cov, array_requests=arrays, growths=grows, divergences=div),
         evaluations=len(cases), distinct_nontrivial=len(set(c['script'] for c in cases)),
         rule='seeded interleavings of node/array allocate/release through allocator_traits and composable traits on memory_pool<node|array|small> and memory_pool_collection<.., identity|log2> over growing/fixed sources, element sizes that round to a different node count, fill-to-exhaustion phases, object below/above its memory; distinct = distinct scripts'))
     if res:
